@@ -196,7 +196,8 @@ class ChangeDistiller:
         self._unmatched_target_nodes = set(self._target_index) - set(pre_matched_nodes.values())
         self._bigram_histo_cache: dict[int, defaultdict[str, int]] = {}
 
-        matching_set = self._compute_matching_set() | set(pre_matched_nodes.items())
+        pre_matched_set = set(pre_matched_nodes.items())
+        matching_set = self._compute_matching_set(pre_matched_set) | pre_matched_set
         return self._generate_edit_script(dict(matching_set), delta_only)
 
     def _generate_edit_script(self, matchings: dict[int, int], delta_only: bool) -> list[Edit]:
@@ -262,8 +263,12 @@ class ChangeDistiller:
 
         return move_edits
 
-    def _compute_matching_set(self) -> set[tuple[int, int]]:
-        leaves_matching_set = self._compute_leaf_matching_set()
+    def _compute_matching_set(
+        self, pre_matched: set[tuple[int, int]] | None = None
+    ) -> set[tuple[int, int]]:
+        # Leaves matched by the caller count towards their ancestors' leaf similarity like
+        # the ones matched here, otherwise a correct hint makes the ancestors look dissimilar
+        leaves_matching_set = self._compute_leaf_matching_set() | (pre_matched or set())
         matching_set = leaves_matching_set.copy()
 
         ordered_unmatched_source_nodes = {
